@@ -2,18 +2,20 @@
 # usage: seedrun2.sh <patch.diff> <PROP>...  -- like seedrun.sh, but on a scratch worktree of /repo (VERIF_REPO), so that
 # /repo's working tree is not touched while other work reads it
 patch=$1; shift
-wt=/tmp/seedrepo
+wt=${SEED_WT:-/tmp/seedrepo}
+vd=${VERIF_DIR:-/verif}
+tag=$(basename $wt)
 git -C /repo worktree remove --force $wt >/dev/null 2>&1
 git -C /repo worktree add --detach -q $wt main || exit 2
 cd $wt
 git apply --check "$patch" || { echo "patch does not apply"; git -C /repo worktree remove --force $wt; exit 2; }
 git apply "$patch"
 export GOFLAGS=-mod=mod GOPROXY=off VERIF_REPO=$wt
-if ! go build ./... 2>/tmp/seedbuild.log; then echo "does not build"; git -C /repo worktree remove --force $wt; exit 2; fi
-cd /verif
+if ! go build ./... 2>/tmp/${tag}_build.log; then echo "does not build"; git -C /repo worktree remove --force $wt; exit 2; fi
+cd $vd
 for p in "$@"; do
-  ./check $p > /tmp/seed_$p.log 2>&1; rc=$?
-  echo "$p exit=$rc violations=$(grep -c '^VIOLATION' /tmp/seed_$p.log) concrete=$(grep '^VIOLATION' /tmp/seed_$p.log | grep -vc no-failing-input-found); $(grep '^#' /tmp/seed_$p.log | head -2 | cut -c1-170 | tr '\n' '|')"
+  ./check $p > /tmp/${tag}_$p.log 2>&1; rc=$?
+  echo "$p exit=$rc violations=$(grep -c '^VIOLATION' /tmp/${tag}_$p.log) concrete=$(grep '^VIOLATION' /tmp/${tag}_$p.log | grep -vc no-failing-input-found); $(grep '^#' /tmp/${tag}_$p.log | head -2 | cut -c1-170 | tr '\n' '|')"
 done
 git -C /repo worktree remove --force $wt
-VERIF_REPO=/repo python3 -c "import sys; sys.path.insert(0,'/verif/lib'); import vcheck; vcheck.Check('C18',[]).sync_gosum()" >/dev/null 2>&1
+VERIF_REPO=/repo python3 -c "import sys; sys.path.insert(0,'$vd/lib'); import vcheck; vcheck.Check('C18',[]).sync_gosum()" >/dev/null 2>&1
